@@ -33,6 +33,8 @@ DEFAULT_KNOBS = {
     "body_len": (2, 5), "p_module_level_call": 0.4, "p_decoy": 0.5, "p_aug_attr": 0.3,
     "p_while": 0.2, "p_tuple_assign": 0.2, "p_annot": 0.15, "multi_call_sites": 0.0,
     "p_instance_global": 0.2, "p_nested_in_method": 0.3, "p_parent_relative": 0.5,
+    "p_dunder_call": 0,     # callable instances; 0 = no random draw at all (opt-in per check)
+    "unique_names": 0,      # 1 = every binding gets its own spelling (no clashes anywhere in the project)
 }
 
 PROFILES = {
@@ -234,7 +236,16 @@ class Gen:
     def lit(self):
         return str(self.rnd.choice([0, 1, 2, 3, 5, 7, 10, 12]))
 
+    def vname(self):
+        """Name of a comprehension / lambda variable."""
+        if self.k["unique_names"]:
+            return self.fresh(VNAMES, ())
+        return self.rnd.choice(VNAMES)
+
     def fresh(self, pool, taken):
+        if self.k["unique_names"]:
+            self.uid += 1
+            return f"{self.rnd.choice(pool).rstrip('_')}_{self.uid}"
         cands = [n for n in pool if n not in taken]
         if cands:
             return self.rnd.choice(cands)
@@ -264,13 +275,13 @@ class Gen:
             return (f"({self.int_expr(ctx, depth - 1)} if {self.bool_expr(ctx, depth - 1)} "
                     f"else {self.int_expr(ctx, depth - 1)})")
         if r < 0.94 and self.p("p_comprehension"):
-            v = self.rnd.choice(VNAMES)
+            v = self.vname()
             inner = ctx.without([v])
             inner.ints.append(v)
             src = self.rnd.choice(ctx.lists) if ctx.lists and self.rnd.random() < 0.5 else f"range({self.rnd.randint(1, 4)})"
             return f"sum({self.int_expr(inner, 1)} for {v} in {src})"
         if r < 0.97 and self.p("p_lambda"):
-            v = self.rnd.choice(VNAMES)
+            v = self.vname()
             inner = ctx.without([v])
             inner.ints.append(v)
             return f"(lambda {v}: {self.int_expr(inner, 1)})({self.int_expr(ctx, 0)})"
@@ -289,7 +300,7 @@ class Gen:
         r = self.rnd.random()
         if r < 0.35 or not self.p("p_comprehension"):
             return "[" + ", ".join(self.int_expr(ctx, 1) for _ in range(self.rnd.randint(1, 3))) + "]"
-        v = self.rnd.choice(VNAMES)
+        v = self.vname()
         inner = ctx.without([v])
         inner.ints.append(v)
         src = self.rnd.choice(ctx.lists) if ctx.lists and self.rnd.random() < 0.5 else f"range({self.rnd.randint(1, 4)})"
@@ -422,7 +433,7 @@ class Gen:
         for f in ci.all_fields() + ci.all_cattrs() + ci.all_props():
             ctx.ints.append(f"{recv}.{f}")
         for m in ci.all_methods():
-            ctx.funcs.append((f"{recv}.{m.name}", m))
+            ctx.funcs.append((recv if m.name == "__call__" else f"{recv}.{m.name}", m))
 
     # ------------------------------------------------------------------ definitions
     def gen_sig(self, name, taken_params=(), method=False):
@@ -485,7 +496,7 @@ class Gen:
         for _ in range(self.rnd.randint(1, 3)):
             # locals deliberately collide with globals / other names when p_shadow
             cands = VNAMES if self.p("p_shadow") else [v for v in VNAMES if v not in mod.names()]
-            v = self.rnd.choice(cands or VNAMES)
+            v = self.rnd.choice(cands or VNAMES) if not self.k["unique_names"] else self.fresh(VNAMES, ())
             if v not in pnames and v not in pool and v != self_name:
                 pool.append(v)
         if not pool:
@@ -539,7 +550,7 @@ class Gen:
         cctx = base_ctx.copy()
         for _ in range(self.rnd.randint(0, 2)):
             reuse = [g for g in mod.gvars if g not in taken]
-            if reuse and self.p("p_shadow"):
+            if reuse and self.p("p_shadow") and not self.k["unique_names"]:
                 a = self.rnd.choice(reuse)       # class attribute spelled like a module global
             else:
                 a = self.fresh(VNAMES + ["K", "LIMIT"], taken)
@@ -567,7 +578,7 @@ class Gen:
             for f in ci.all_fields() + ci.all_cattrs():
                 ctx.ints.append(f"self.{f}")
             for m in ci.all_methods():
-                ctx.funcs.append((f"self.{m.name}", m))
+                ctx.funcs.append(("self" if m.name == "__call__" else f"self.{m.name}", m))
             for p_ in ci.all_props():
                 ctx.ints.append(f"self.{p_}")
 
@@ -580,6 +591,13 @@ class Gen:
             lines += self.gen_function(mod, base_ctx, msig, 1, "self", extra_ctx=selfctx,
                                        allow_nested=self.p("p_nested_in_method"))
             self._cur_cattrs = set()
+            msig.kind, msig.owner = "method", ci
+            ci.methods.append(msig)
+        if self.k["p_dunder_call"] and self.p("p_dunder_call") and "__call__" not in taken:
+            taken.add("__call__")
+            msig = self.gen_sig("__call__", taken_params=["self"], method=True)
+            self.fill_defaults(msig, mod, base_ctx)
+            lines += self.gen_function(mod, base_ctx, msig, 1, "self", extra_ctx=selfctx, allow_nested=False)
             msig.kind, msig.owner = "method", ci
             ci.methods.append(msig)
         if self.p("p_property"):
@@ -857,7 +875,7 @@ class Gen:
                         lines.append(f"print({o + '.' + fld!r}, {o}.{fld})")
                     for meth in c.all_methods():
                         args = meth.call_args(rnd, self.lit)
-                        lines += show(o + '.' + meth.name, f"{o}.{meth.name}({args})")
+                        lines += show(o + '.' + meth.name, f"{o}({args})" if meth.name == "__call__" else f"{o}.{meth.name}({args})")
                     if c.all_fields() and rnd.random() < 0.5:
                         fld = rnd.choice(c.all_fields())
                         lines.append(f"{o}.{fld} += {self.lit()}")
